@@ -376,8 +376,10 @@ def weave_item(hdr, subs, stats):
             if endtok is None:
                 raise WeaveError(f"{what}: cannot delimit the statement containing `{d['anchor']}`")
             dropped = ot.s[tk[first].start:tk[endtok].end]
-            ot.replace(tk[first].start, tk[endtok].end, "")
-            log.append({"rule": "DROP statement (not verified)", "before": " ".join(dropped.split())[:200], "after": ""})
+            repl = (d.get("text") or "").strip()
+            ot.replace(tk[first].start, tk[endtok].end, repl)
+            log.append({"rule": "DROP statement (not verified)" if not repl else "REPLACE statement by an assumed twin (not verified)",
+                        "before": " ".join(dropped.split())[:200], "after": repl})
     for d in subs:
         if d["op"] == "replaceblock":
             tk = tokenize(ot.s)
@@ -805,11 +807,14 @@ def parse_template(path, seen=None):
                     elif op in ("loopstart", "loopend", "beforeloop", "afterloop"):
                         cur = {"op": op, "n": int(rest), "text": ""}
                         subs.append(cur)
-                    elif op == "dropstmt":
+                    elif op in ("dropstmt", "replacestmt"):
                         mm = re.match(r"(?:nth\s+(\d+)\s+)?`(.*)`\s*$", rest)
                         if not mm:
-                            raise WeaveError(f"{path}:{i+1}: bad dropstmt directive")
-                        subs.append({"op": "dropstmt", "anchor": mm.group(2), "nth": int(mm.group(1) or 1)})
+                            raise WeaveError(f"{path}:{i+1}: bad {op} directive")
+                        cur = {"op": "dropstmt", "anchor": mm.group(2), "nth": int(mm.group(1) or 1), "text": ""}
+                        subs.append(cur)
+                        if op == "dropstmt":
+                            cur = None
                     elif op == "replaceblock":
                         mm = re.match(r"(?:nth\s+(\d+)\s+)?`(.*)`\s*$", rest)
                         if not mm:
